@@ -475,6 +475,14 @@ def translate_registry(repo):
            R.method(tree, "delete_jobs", "reg_delete_jobs", tags, "int"),
            R.method(tree, "get_jobs", "reg_get_jobs", tags, "set"),
            R.method(tree, "jobs", "reg_jobs", [], "set")]
+    # asyncio front end: a dict Job -> Task; delete_job pops the entry and cancels the task
+    apath = os.path.join(repo, "scheduler/asyncio/scheduler.py")
+    CURFILE[0] = apath
+    atree = ast.parse(open(apath).read())
+    out += [R.aio_method(atree, "delete_job", "aio_delete_job", [("job", "pytagjob")], "unit", strip_unit=True),
+            R.aio_method(atree, "delete_jobs", "aio_delete_jobs", tags, "int"),
+            R.aio_method(atree, "get_jobs", "aio_get_jobs", tags, "set"),
+            R.aio_method(atree, "jobs", "aio_jobs", [], "set")]
     return HEADER % path + "From Gen Require Import GenSelect.\n\n" + "\n".join(out)
 
 
